@@ -57,17 +57,24 @@ ADDED_KNOBS = {'n_min': 2, 'n_max': 4, 'max_nodes': 2,
 ADDED_COUNT = {'quick': 160, 'thorough': 3000}
 
 
+# the general family again with slow handshakes (each XML-RPC of a handshake takes 0 - 3 s, L3 engine) and instance
+# restarts: requests are emitted and answered while peers are being checked again
+SLOW_KNOBS = dict(KNOBS, handshake_skew=[0.0, 0.3, 1.0, 2.0, 3.0], actions=KNOBS['actions'] + ['restart', 'restart'])
+
+
 def plan(tier, seed):
     return [{'seed': seed * 1000003 + i} for i in range(COUNT[tier])] + \
         [{'seed': seed * 1000003 + 800000 + i, 'family': 'disabled-during-join'} for i in range(JOIN_COUNT[tier])] + \
         [{'seed': seed * 1000003 + 700000 + i, 'family': 'process-added-to-a-non-distributed-job'}
-         for i in range(ADDED_COUNT[tier])]
+         for i in range(ADDED_COUNT[tier])] + \
+        [{'seed': seed * 1000003 + 900000 + i, 'family': 'slow-handshake'} for i in range(COUNT[tier] // 8)]
 
 
 def run_case(case):
     tracker = Tracker()
     mon = EligibilityMonitor(tracker)
-    run = Run(case, {'disabled-during-join': JOIN_KNOBS, 'process-added-to-a-non-distributed-job': ADDED_KNOBS}.get(
+    run = Run(case, {'disabled-during-join': JOIN_KNOBS, 'process-added-to-a-non-distributed-job': ADDED_KNOBS,
+                     'slow-handshake': SLOW_KNOBS}.get(
         case.get('family'), KNOBS), [tracker, mon])
     violations = run.execute()
     nontrivial = mon.counters.get('requests_near_cap', 0) + mon.counters.get('requests_with_pending_load', 0) > 0
